@@ -91,6 +91,7 @@ Blank ==
       rv    |-> TSNone,                        \* non-boolean result of the last operator
       pend  |-> <<>>, cur |-> <<>>,            \* pendingTransitions, currentTransitions
       draws |-> 0,                             \* generator outputs consumed in this call
+      plog  |-> <<>>,                          \* plan API calls of this call: <<"a", 0|1>> append (result), <<"c", n>> clear (of n tasks), <<"r", 0|1>> remove, <<"w", tasks>> sweep
       rounds |-> <<>>,                         \* per round: <<"approved"|"vetoed"|"noop", requests>>
       over  |-> 0,                             \* requests rejected because the queue was full
       oa    |-> 0, osub |-> <<>>,              \* what isActive / activeSubState answer during this call's callbacks
@@ -204,6 +205,11 @@ CtlRequest(m, k, d, p) ==
     ELSE [m EXCEPT !.q = Append(@, <<m.org, d, k, p>>),
                    !.ts.ot = @ \/ (d < m.rs \/ m.rs + m.rz <= d)]
 
+MaskBit(mask, i) == (mask \div (2 ^ (i - 1))) % 2 = 1
+SelectSeqIdx(seq, Keep(_)) ==
+    LET RECURSIVE F(_)
+        F(i) == IF i > Len(seq) THEN <<>> ELSE (IF Keep(i) THEN <<seq[i]>> ELSE <<>>) \o F(i + 1)
+    IN F(1)
 RemoveAt(seq, i) == SubSeq(seq, 1, i - 1) \o SubSeq(seq, i + 1, Len(seq))
 
 \* PlanT::clearStatuses
@@ -222,13 +228,22 @@ ApplyOp(m, me, op) ==
       [] t = "consume" /\ b \in ReactMethods \cup {"query"} -> [m EXCEPT !.consumed = TRUE]
       [] t = "plan_append" /\ b \in FullMethods \cup LifeMethods ->
             \* <<"plan_append", region, origin, dest, kind, payload>>
+            \* PlanT::append : refused (false, nothing changes) once TASK_CAPACITY tasks are stored machine-wide
             IF TotalTasks(m) < Cfg.taskcap
-            THEN [m EXCEPT !.pex = @ \cup {op[2]}, !.plans[op[2]] = Append(@, <<op[3], op[4], op[5], op[6]>>)]
-            ELSE m
+            THEN [m EXCEPT !.pex = @ \cup {op[2]}, !.plans[op[2]] = Append(@, <<op[3], op[4], op[5], op[6]>>),
+                           !.plog = Append(@, <<"a", 1>>)]
+            ELSE [m EXCEPT !.plog = Append(@, <<"a", 0>>)]
       [] t = "plan_clear" /\ b \in FullMethods \cup LifeMethods ->
-            PlanClearStatuses([m EXCEPT !.plans[op[2]] = <<>>], op[2])
+            PlanClearStatuses([m EXCEPT !.plans[op[2]] = <<>>, !.plog = Append(@, <<"c", Len(m.plans[op[2]])>>)], op[2])
       [] t = "plan_remove" /\ b \in FullMethods \cup LifeMethods ->
-            IF op[3] <= Len(m.plans[op[2]]) THEN [m EXCEPT !.plans[op[2]] = RemoveAt(@, op[3])] ELSE m
+            IF op[3] <= Len(m.plans[op[2]]) THEN [m EXCEPT !.plans[op[2]] = RemoveAt(@, op[3]), !.plog = Append(@, <<"r", 1>>)]
+            ELSE [m EXCEPT !.plog = Append(@, <<"r", 0>>)]
+      [] t = "plan_sweep" /\ b \in FullMethods \cup LifeMethods ->
+            \* <<"plan_sweep", region, mask>> : iterate the whole plan, Iterator::remove() at the positions in mask;
+            \* every task is visited exactly once, in order, and only the addressed ones disappear
+            LET pl == m.plans[op[2]] IN
+            [m EXCEPT !.plans[op[2]] = SelectSeqIdx(pl, LAMBDA i : ~MaskBit(op[3], i)),
+                      !.plog = Append(@, <<"w", pl>>)]
       [] OTHER -> m
 
 RECURSIVE ApplyOps(_, _, _, _)
@@ -1068,7 +1083,7 @@ ReplayEnter(m, list) ==
 (* `sc` the script for this call.                                          *)
 
 BeginCall(m, sc) ==
-    [NewControl(m) EXCEPT !.notes = {}, !.ev = <<>>, !.draws = 0, !.rounds = <<>>, !.over = 0, !.ok = TRUE, !.rv = TSNone,
+    [NewControl(m) EXCEPT !.notes = {}, !.ev = <<>>, !.draws = 0, !.plog = <<>>, !.rounds = <<>>, !.over = 0, !.ok = TRUE, !.rv = TSNone,
                           !.pend = <<>>, !.cur = <<>>, !.sc = sc,
                           !.oa = ActiveMask(m), !.osub = SubList(m)]
 
@@ -1108,6 +1123,7 @@ ApiFail(m, s, sc)    == LET m0 == BeginCall(m, sc) IN IF s > 1 THEN [m0 EXCEPT !
 ApiPlanAppend(m, r, o, d, k, p, sc) == ApplyOp(BeginCall(m, sc), "update", <<"plan_append", r, o, d, k, p>>)
 ApiPlanClear(m, r, sc)              == ApplyOp(BeginCall(m, sc), "update", <<"plan_clear", r>>)
 ApiPlanRemove(m, r, i, sc)          == ApplyOp(BeginCall(m, sc), "update", <<"plan_remove", r, i>>)
+ApiPlanSweep(m, r, mask, sc)        == ApplyOp(BeginCall(m, sc), "update", <<"plan_sweep", r, mask>>)
 
 ApiSave(m, sc) == BeginCall(m, sc)
 
@@ -1137,6 +1153,7 @@ Step(m, a, sc) ==
       [] a[1] = "pa"      -> ApiPlanAppend(m, a[2], a[3], a[4], a[5], a[6], sc)
       [] a[1] = "pc"      -> ApiPlanClear(m, a[2], sc)
       [] a[1] = "pr"      -> ApiPlanRemove(m, a[2], a[3], sc)
+      [] a[1] = "ps"      -> ApiPlanSweep(m, a[2], a[3], sc)
       [] a[1] = "save"    -> ApiSave(m, sc)
       [] a[1] = "load"    -> ApiLoad(m, Tail(a), sc)
       [] a[1] = "replay"  -> Replay(BeginCall(m, sc), ListOf(a))
